@@ -203,6 +203,68 @@ def gammaEnsemble (fp : FpConsts α) (ens : String) (reps : List (Rep α))
                rho := rho, drho := zero.set n (drhoAt n), nTauint := nTau, nDtauint := nDtau,
                margin := minAbs (gw.take n) }
 
+/-- the first half of `gammaEnsemble`: the normalised autocorrelation table (same text as above) -/
+def gammaTable (reps : List (Rep α)) (wmax : Nat) (gap : Int) : List α :=
+  let zero : List α := List.replicate wmax 0
+  let gam0 := reps.foldl (fun acc r => addL acc (calcGamma r.deltas r.idl wmax gap)) zero
+  let div0 := reps.foldl (fun acc r =>
+      addL acc (calcGamma (List.replicate r.idl.len (1 : α)) r.idl wmax gap)) zero
+  let div := div0.map (fun x => if x < 1 then 1 else x)
+  List.zipWith (· / ·) gam0 div
+
+/-- the second half of `gammaEnsemble`: everything computed from the table (same text as above, with the
+    table as a parameter).  `gammaEnsemble_eq_analyse` (PV/Proofs/C02cLemmas.lean) shows by `rfl` that
+    `gammaEnsemble` is the composition of `determineGap`, `gammaTable` and `analyseGamma`. -/
+def analyseGamma (fp : FpConsts α) (ens : String) (eN : α) (wmax : Nat) (gamma : List α)
+    (S tauExp nSigma : α) : Except GmErr (EnsResult α) := do
+  let zero : List α := List.replicate wmax 0
+  let g0 := gamma.getD 0 0
+  if absS g0 < fp.tenTiny then
+    return { ens := ens, tauint := fp.half, dtauint := 0, dvalue := 0, ddvalue := 0, windowsize := 0,
+             rho := zero, drho := zero, nTauint := [], nDtauint := [], margin := 1 }
+  let rho := gamma.map (· / g0)
+  let nTau0 := cumsum (fp.half :: rho.drop 1)
+  let nTau := nTau0.map (fun x => if x ≤ fp.half then fp.half + fp.eps else x)
+  let nDtau0 := (List.zip (List.range wmax) nTau).map (fun (i, t) =>
+      t * 2 * sqrt (absS (ofNatS i + fp.half - t) / eN))
+  let nDtau := nDtau0.set 0 0
+  let drhoAt (i : Nat) : α := sqrt (drhoSq rho wmax eN i)
+  let biasTau (n : Nat) : α := nTau.getD n 0 * (1 + (2 * ofNatS n + 1) / eN) / (1 + 1 / eN)
+  if 0 < tauExp then
+    -- critical slowing down analysis (obs.py 291-307)
+    let drho1 := zero.set 1 (drhoAt 1)
+    if wmax / 2 ≤ 1 then throw .tauExpTooShort
+    match texpLoop rho nSigma drhoAt wmax (wmax / 2 - 1) 1 drho1 with
+    | none => throw .tauExpTooShort   -- unreachable: `n >= w_max // 2 - 2` is met first
+    | some (n, drho) =>
+      let tau := biasTau n + tauExp * absS (rho.getD (n + 1) 0)
+      let dtau := sqrt (nDtau.getD n 0 * nDtau.getD n 0
+                        + tauExp * tauExp * (drho.getD (n + 1) 0 * drho.getD (n + 1) 0))
+      let dv := sqrt (2 * tau * g0 * (1 + 1 / eN) / eN)
+      return { ens := ens, tauint := tau, dtauint := dtau, dvalue := dv,
+               ddvalue := dv * sqrt ((ofNatS n + fp.half) / eN), windowsize := n,
+               rho := rho, drho := drho, nTauint := nTau, nDtauint := nDtau,
+               margin := minAbs ((List.range n).map (fun k => rho.getD (k + 1) 0 - nSigma * drhoAt (k + 1))) }
+  else if isZero S then
+    let dv := sqrt (g0 / (eN - 1))
+    return { ens := ens, tauint := fp.half, dtauint := 0, dvalue := dv,
+             ddvalue := dv * sqrt (fp.half / eN), windowsize := 0,
+             rho := rho, drho := zero, nTauint := nTau, nDtauint := nDtau, margin := 1 }
+  else
+    -- automatic windowing (obs.py 317-327)
+    let tau : List α := (nTau.drop 1).map (fun t => S / log ((2 * t + 1) / (2 * t - 1)))
+    let gw : List α := (List.zip (List.range tau.length) tau).map (fun (k, t) =>
+        exp (-(ofNatS (k + 1)) / t) - t / sqrt (ofNatS (k + 1) * eN))
+    match windowLoop gw wmax (wmax - 1) 1 with
+    | none => throw .tauExpTooShort   -- `range(1, w_max)` empty: no result attribute is set
+    | some n =>
+      let tauB := biasTau n
+      let dv := sqrt (2 * tauB * g0 * (1 + 1 / eN) / eN)
+      return { ens := ens, tauint := tauB, dtauint := nDtau.getD n 0, dvalue := dv,
+               ddvalue := dv * sqrt ((ofNatS n + fp.half) / eN), windowsize := n,
+               rho := rho, drho := zero.set n (drhoAt n), nTauint := nTau, nDtauint := nDtau,
+               margin := minAbs (gw.take n) }
+
 /-- `errsq` of a covariance input: `grad^T cov grad` -/
 def covErrSq (c : CovIn α) : α :=
   dot c.grad (c.cov.map (fun row => dot row c.grad))
